@@ -43,7 +43,7 @@ class FuncInfo:
 
     @property
     def file(self):
-        return self.module.relpath
+        return getattr(self.node, "_relpath", None) or self.module.relpath
 
     @property
     def lineno(self):
@@ -51,7 +51,7 @@ class FuncInfo:
 
     def loc(self, node=None):
         n = node if node is not None else self.node
-        return f"{self.module.relpath}:{getattr(n, 'lineno', self.node.lineno)}"
+        return f"{getattr(self.node, '_relpath', None) or self.module.relpath}:{getattr(n, 'lineno', self.node.lineno)}"
 
     def params(self) -> t.List[str]:
         a = self.node.args
@@ -164,6 +164,7 @@ class Program:
             mi = ModuleInfo(short, path, f"src/someip/{short}.py", tree, raw.decode("utf-8", "replace"))
             self.modules[short] = mi
         self.digest = h.hexdigest()
+        self._undo_module_splits()
         from .renames import undo_private_renames
         self.renames = undo_private_renames({short: mi.tree for short, mi in self.modules.items()})
         for mi in self.modules.values():
@@ -174,6 +175,49 @@ class Program:
             ci.mro = self._c3(ci.qual, ())
         for ci in self.classes.values():
             self._scan_attrs(ci)
+
+    def _undo_module_splits(self):
+        """N10: definitions moved out of an anchored module into a new private module and imported back by name
+        (`from ._store import TimedStore`) are the anchored module's definitions: the new module's top-level statements are
+        spliced in where the import stood (names the anchored module already binds are kept from it), the new module is
+        dropped.  A new module nobody imports from by name stays a module of its own."""
+        for short in sorted(m for m in self.modules if m not in MODULES):
+            new = self.modules[short]
+            users = []
+            for b in MODULES:
+                bm = self.modules[b]
+                for i, st in enumerate(bm.tree.body):
+                    if isinstance(st, ast.ImportFrom) and (
+                            (st.level == 1 and st.module == short) or (st.level == 0 and st.module == f"{PKG}.{short}")) \
+                            and all(a.name != "*" and not a.asname for a in st.names):
+                        users.append((b, i, st))
+            if len(users) != 1:
+                continue  # (shared helpers of several modules stay where they are)
+            b, i, st = users[0]
+            bm = self.modules[b]
+            bound = set()
+            for x in bm.tree.body:
+                if isinstance(x, (ast.FunctionDef, ast.AsyncFunctionDef, ast.ClassDef)):
+                    bound.add(x.name)
+                elif isinstance(x, (ast.Assign, ast.AnnAssign)):
+                    for tg in (x.targets if isinstance(x, ast.Assign) else [x.target]):
+                        if isinstance(tg, ast.Name):
+                            bound.add(tg.id)
+            moved = []
+            for x in new.tree.body:
+                if isinstance(x, ast.ImportFrom) and x.module == "__future__":
+                    continue
+                if isinstance(x, ast.Expr) and isinstance(x.value, ast.Constant):
+                    continue  # module docstring
+                names = [x.name] if isinstance(x, (ast.FunctionDef, ast.AsyncFunctionDef, ast.ClassDef)) else \
+                    [tg.id for tg in (x.targets if isinstance(x, ast.Assign) else [x.target] if isinstance(x, ast.AnnAssign) else []) if isinstance(tg, ast.Name)]
+                if names and all(n in bound for n in names):
+                    continue
+                for sub in ast.walk(x):
+                    sub._relpath = new.relpath  # reports cite the file the text is in
+                moved.append(x)
+            bm.tree.body[i:i + 1] = moved
+            del self.modules[short]
 
     def _scan_module(self, mi: ModuleInfo):
         def scan_imports(body):
